@@ -16,6 +16,7 @@ import itertools
 import numpy as np
 
 from tflv import core
+from tflv import modes
 from tflv.oracles import kfl as okfl
 
 PROPERTY = "C07"
@@ -62,7 +63,8 @@ def gen_cases(ctx):
       omax = (omin if omin is not None else 0.0) + float(rng.choice([0.5, 1.0, 3.0]))
     yield {"kind": "train" if i % 6 == 5 else "assign", "L": L, "dims": dims, "units": units, "terms": terms,
            "mono": mono, "mono_mode": mm, "omin": omin, "omax": omax, "bounds": b, "clip": bool(rng.rand() < .5),
-           "spelling": str(rng.choice(["int", "str"])), "seed": int(rng.randint(2**31 - 1))}
+           "spelling": str(rng.choice(["int", "str"])), "seed": int(rng.randint(2**31 - 1)),
+           "exec": modes.pick(rng, (0.6, 0.2, 0.2))}
 
 
 def _grid(case):
@@ -81,7 +83,7 @@ def _judge(ctx, prefix, case, layer, X, g, step, label):
   if not (np.all(np.isfinite(K)) and np.all(np.isfinite(S)) and np.all(np.isfinite(Bv))):
     ctx.note("overflow-state-cut")
     return None
-  y = layer(tf.constant(X)).numpy().astype(np.float64)
+  y = modes.call(tf, case.get("exec", "eager"), layer, tf.constant(X)).numpy().astype(np.float64)
   if not np.all(np.isfinite(y)) and (np.abs(K).max() > 1e15 or np.abs(S).max() > 1e15):
     ctx.note("overflow-state-cut")
     return None
@@ -144,13 +146,16 @@ def run_case(ctx, case):
   spread = 0.0
   keys = []
 
+  ex = case.get("exec", "eager")
+  ctx.cls("exec:" + ex)
+
   def ck():
     if layer.kernel.constraint is not None:
-      layer.kernel.assign(layer.kernel.constraint(layer.kernel))
+      modes.call(tf, "eager" if ex == "eager" else "graph", lambda: layer.kernel.assign(layer.kernel.constraint(layer.kernel)))
 
   def cs():
     if layer.scale.constraint is not None:
-      layer.scale.assign(layer.scale.constraint(layer.scale))
+      modes.call(tf, "eager" if ex == "eager" else "graph", lambda: layer.scale.assign(layer.scale.constraint(layer.scale)))
 
   if case["kind"] == "assign":
     r = _judge(ctx, "state", case, layer, X, g, 0, "construction")
